@@ -116,7 +116,7 @@ let field s name =
 let is_api_query op0 toks =
   match op0 with
   | "P" | "D" | "Dm" | "DM" | "DA" | "Sz" | "E" | "G" | "Mn" | "Mx" | "F" | "C" | "Sel" | "R" | "Rg" | "RS"
-  | "All" | "AS" | "Any" | "Allm" | "Sm" | "Pm" | "Eq" -> true
+  | "All" | "AS" | "Any" | "Allm" | "Sm" | "Pm" | "Eq" | "RgK" | "SmK" | "PmK" | "Chk" | "Scr" -> true
   | "T" | "TS" -> (match ios toks.(1) with 2 | 3 | 6 | 7 -> true | _ -> false)
   | _ -> false
 
@@ -145,6 +145,7 @@ let () =
         bump ("cases_" ^ impl_s) 1; bump ("cases_cmp_" ^ cmp_s) 1;
         let st = ref (Leaf : (z, z) tree) in
         let dead = ref false in
+        let kept = ref ([] : string list) in   (* answers the harness keeps and re-reads: they cannot change *)
         let opno = ref 0 in
         let reported_api = ref false and reported_fid = ref false in
         let effective = ref 0 and maxsize = ref 0 in
@@ -190,6 +191,11 @@ let () =
             | "R" -> run_op (Q (QRank (zi 1)))
             | "Rg" -> run_op (Q (QRange (zi 1, zi 2)))
             | "RS" -> run_op (Q (QRangeSize (zi 1, zi 2)))
+            | "RgK" -> let e = run_op (Q (QRange (zi 1, zi 2))) in kept := e :: !kept; e
+            | "SmK" -> let e = run_op (Q (QSelectMatch (pred (ios toks.(1))))) in kept := e :: !kept; e
+            | "PmK" -> let e = run_op (Q (QPartitionMatch (pred (ios toks.(1))))) in kept := e :: !kept; e
+            | "Chk" -> if !kept = [] then "-" else String.concat "/" (List.rev !kept)
+            | "Scr" -> kept := []; "-"
             | "All" -> run_op (Q QAll)
             | "T" -> run_op (Q (QTraverse (order_of_int (ios toks.(1)))))
             | "TS" -> run_op (Q (QTraverseStop (order_of_int (ios toks.(1)), nat_of_int (ios toks.(2)))))
